@@ -118,6 +118,9 @@ func (g *Graph) FactsAt(n *GNode) []Fact {
 // FactFresh reports whether none of the variables mentioned by the fact is
 // assigned on any path from the fact's edge to n.
 func (g *Graph) FactFresh(f Fact, n *GNode) bool {
+	if f.Edge == nil {
+		return true // short-circuit fact inside the same expression
+	}
 	info := g.Fn.Pkg.TypesInfo
 	objs := map[types.Object]bool{}
 	collect := func(e ast.Expr) {
@@ -466,5 +469,66 @@ func NamedTypeName(t types.Type) string {
 func DecomposeCond(cond ast.Expr, truth bool) []Fact {
 	var out []Fact
 	decompose(cond, truth, nil, &out)
+	return out
+}
+
+
+// FactsAtPos returns FactsAt(n) plus the facts implied by short-circuit evaluation inside n's own
+// expression for the sub-expression at [pos,end): in `A && B` B is evaluated only when A is true, in
+// `A || B` only when A is false.
+func (g *Graph) FactsAtPos(n *GNode, pos, end token.Pos) []Fact {
+	out := g.FactsAt(n)
+	if n == nil || n.Ast == nil {
+		return out
+	}
+	var walk func(e ast.Expr)
+	walk = func(e ast.Expr) {
+		if e == nil || !(e.Pos() <= pos && end <= e.End()) {
+			return
+		}
+		switch x := unparen(e).(type) {
+		case *ast.BinaryExpr:
+			if x.Op == token.LAND || x.Op == token.LOR {
+				if x.Y.Pos() <= pos && end <= x.Y.End() {
+					out = append(out, DecomposeCond(x.X, x.Op == token.LAND)...)
+					walk(x.Y)
+					return
+				}
+				walk(x.X)
+				return
+			}
+			walk(x.X)
+			walk(x.Y)
+		case *ast.UnaryExpr:
+			walk(x.X)
+		case *ast.CallExpr:
+			for _, a := range x.Args {
+				walk(a)
+			}
+			walk(x.Fun)
+		case *ast.IndexExpr:
+			walk(x.X)
+			walk(x.Index)
+		case *ast.SelectorExpr:
+			walk(x.X)
+		case *ast.StarExpr:
+			walk(x.X)
+		case *ast.SliceExpr:
+			walk(x.X)
+		case *ast.KeyValueExpr:
+			walk(x.Value)
+		case *ast.CompositeLit:
+			for _, el := range x.Elts {
+				walk(el)
+			}
+		}
+	}
+	ast.Inspect(n.Ast, func(m ast.Node) bool {
+		if be, ok := m.(*ast.BinaryExpr); ok && (be.Op == token.LAND || be.Op == token.LOR) && be.Pos() <= pos && end <= be.End() {
+			walk(be)
+			return false
+		}
+		return true
+	})
 	return out
 }
